@@ -211,7 +211,24 @@ def rule_b(ctx):
   else:
     blocked = {(t[0].id, m2.id, l) for m2, l in t[0].succ if l == 'true'}
     seen, _ = g.reach(g.entry, blocked_edges=blocked, follow_exc=False)
-    if ip[0].id in seen:
+    collected_ungated = ip[0].id in seen
+    # what is compared with the initial population size: the whole list, or a count of its
+    # rewarded entries only (the list may then also hold the in-flight proposals - C15.f)
+    counts_rewarded_only = False
+    for cmp_ in [x for x in ast.walk(ev.node) if isinstance(x, ast.Compare) and '_init_population_size' in A.unparse(x)
+                 and not any(isinstance(o, (ast.Is, ast.IsNot)) for o in x.ops)]:
+      other = [sd for sd in [cmp_.left] + list(cmp_.comparators) if '_init_population_size' not in A.unparse(sd)]
+      for sd in other:
+        exprs = [sd]
+        if isinstance(sd, ast.Name):
+          exprs = [v for _, v in D.defs_of(ev.node, sd.id) if v is not None]
+        for e in exprs:
+          comps = [c for c in ast.walk(e) if isinstance(c, (ast.ListComp, ast.GeneratorExp))
+                   and any(A.unparse(gn.iter) in ipl for gn in c.generators)]
+          if comps and all(any(isinstance(i_, ast.Compare) and any(isinstance(o, ast.IsNot) for o in i_.ops)
+                               for gn in c.generators for i_ in gn.ifs) for c in comps):
+            counts_rewarded_only = True
+    if collected_ungated and not counts_rewarded_only:
       problems.append('a proposal whose reward never arrived is counted towards the completion of '
                       'the initial population (the live path counts feedbacks)')
   ctx.ob('C15.b', ev.fq + '#init-population', not problems,
@@ -470,8 +487,67 @@ def rule_d(ctx):
            f'seed tested as {tests}: seed=0 is treated as unseeded on one of the two paths')
 
 
+def rule_f(ctx):
+  """Evolution overrides `recover`; two things the base replay does by construction have to
+  be re-done there.  (1) The reward is compared / stored in the form `_feedback` receives:
+  the history holds it as it was given to `feedback` (a float for a multi-objective
+  algorithm), so any comparison of the history reward with the stored fitness goes through
+  the same normalisation `feedback` applies.  (2) Every initial proposal of the history is
+  replayed into the population initializer, the ones still in flight (reward None)
+  included - otherwise a Sweeping / seeded Random initializer proposes them again."""
+  idx = ctx.index
+  f = idx.func('pyglove.ext.evolution.base.Evolution.recover')
+  fb = idx.func('pyglove.core.geno.dna_generator.DNAGenerator.feedback')
+  # the normaliser: the helper feedback passes the reward through before _feedback
+  norm = None
+  for c in A.calls_in(fb.node):
+    if (A.call_name(c) or '').endswith('._feedback') and len(c.args) >= 2 and isinstance(c.args[1], ast.Call):
+      norm = (A.call_name(c.args[1]) or '').split('.')[-1]
+  loops = [lp for lp in ast.walk(f.node) if isinstance(lp, ast.For) and isinstance(lp.target, ast.Tuple) and len(lp.target.elts) == 2]
+  if not loops:
+    raise AnalysisError('Evolution.recover: history loop not found')
+  lp = loops[0]
+  rvar = A.assigned_names(lp.target)[1]
+  raw = []
+  for cmp_ in [x for x in ast.walk(lp) if isinstance(x, ast.Compare) and any(isinstance(o, (ast.Eq, ast.NotEq)) for o in x.ops)]:
+    sides = [cmp_.left] + list(cmp_.comparators)
+    if any(isinstance(sd, ast.Name) and sd.id == rvar for sd in sides) and any(
+        isinstance(sd, ast.Call) and (A.call_name(sd) or '').split('.')[-1] == 'get_fitness' for sd in sides):
+      raw.append(cmp_.lineno)
+  ctx.ob('C15.f', 'Evolution.recover#reward-form', not raw,
+         'the history reward is compared with the stored fitness in the form feedback() stores it'
+         + (f' (through {norm})' if norm else ''), f.loc,
+         f'line {raw}: the raw history reward is compared with get_fitness(dna): a float given to a multi-objective algorithm '
+         f'was stored as (r,), so recover() of its own history raises AssertionError')
+  # (2) appends to the list handed to the initializer's recover
+  init_lists = {A.unparse(c.args[0]) for c in A.calls_in(f.node)
+                if (A.call_name(c) or '').endswith('_init_population_generator.recover') and c.args}
+  if not init_lists:
+    raise AnalysisError('Evolution.recover: the population initializer is not recovered')
+  g = C.cfg_of(f.node)
+  apps = [k for k in g.nodes if k.ast is not None and any(
+      (A.call_name(c) or '') in {f'{l}.append' for l in init_lists} for c in k.calls())]
+  if not apps:
+    raise AnalysisError('Evolution.recover: nothing is collected for the population initializer')
+  tests = [t for t in g.nodes if t.kind == 'test' and isinstance(t.ast, ast.Compare) and rvar in A.names_read(t.ast)
+           and any(isinstance(o, (ast.Is, ast.IsNot)) for o in t.ast.ops)]
+  gated = False
+  for t in tests:
+    # is the append reachable only through the "reward is not None" outcome?
+    none_lab = 'true' if isinstance(t.ast.ops[0], ast.Is) else 'false'
+    blocked = {(t.id, m.id, l) for m, l in t.succ if l != none_lab}
+    seen, _ = g.reach(t, blocked_edges=blocked, follow_exc=False)
+    if not any(a.id in seen for a in apps):
+      gated = True
+  ctx.ob('C15.f', 'Evolution.recover#initial-in-flight', not gated,
+         'initial proposals are replayed into the population initializer whether or not they have a reward yet', f.loc,
+         'the collection is reached only when `reward is not None`: an in-flight initial proposal is proposed again after recovery '
+         '(Sweeping initializer: the recovered run repeats a DNA that is still being evaluated)')
+
+
 def run(ctx):
   ctx.consult(*FILES)
+  rule_f(ctx)
   rule_a(ctx)
   rule_b(ctx)
   rule_c(ctx)
